@@ -3,11 +3,13 @@ package main
 import (
 	"bytes"
 	"encoding/binary"
+	"errors"
 	"fmt"
 	"io"
 	"os"
 	"path/filepath"
 	"runtime"
+	"testing/iotest"
 	"time"
 
 	"github.com/WICG/webpackage/go/bundle"
@@ -193,6 +195,29 @@ func genC10(r *Rng, tier string) []Case {
 			mem("sxg_read_verify", B(f), B(append(headBytes(0x80, 8, 1<<40), s.chain[1:]...)))
 		}
 	}
+	// a source that fails in the middle of a valid file: every early position, then a sample
+	{
+		e := mkExchange(r, sxgVersions[r.Intn(3)], exOpts{contentType: true, payloadLen: 300, uri: "https://example.com/index.html"})
+		s := signExchange(e, sxgKeys[0], 64, baseDate, baseDate+100, "https://cert.example.org/c", "https://example.com/v")
+		var bb bytes.Buffer
+		rb := randBundle(r, bverList()[r.Intn(2)], 3)
+		if _, err := rb.WriteTo(&bb); err != nil {
+			bb.Reset()
+		}
+		arts := map[string][]byte{"bundle": bb.Bytes()}
+		if s.ok {
+			arts["sxg"] = writeFile(e)
+			arts["cc"] = s.chain
+		}
+		for _, kind := range []string{"bundle", "cc", "sxg"} {
+			f := arts[kind]
+			for p := 0; p < len(f); p++ {
+				if p < 120 || p%37 == 0 || p >= len(f)-3 {
+					cs = append(cs, Case{"read_fault", []Sx{Sym(kind), B(f), Zi(int64(p))}})
+				}
+			}
+		}
+	}
 	// MI: record size at / above the limit with almost no data; many tiny records
 	_, dg := miEncodeRef(1, 16, []byte("x"))
 	for _, rs := range []uint64{1, 16384, 16385, 1 << 32, 1<<64 - 1} {
@@ -264,5 +289,23 @@ func genC10(r *Rng, tier string) []Case {
 
 func init() {
 	regOp("mem", opMem)
+	regOp("read_fault", func(a []Sx) Sx {
+		src := io.MultiReader(bytes.NewReader(a[1].B[:a[2].Int()]), iotest.ErrReader(errors.New("injected read fault")))
+		var err error
+		switch {
+		case a[0].IsSym("sxg"):
+			_, err = sxg.ReadExchange(src)
+		case a[0].IsSym("cc"):
+			_, err = certurl.ReadCertChain(src)
+		case a[0].IsSym("bundle"):
+			_, err = bundle.Read(src)
+		default:
+			panic("bad kind")
+		}
+		if err != nil {
+			return ErrV()
+		}
+		return L(Sym("ok"))
+	})
 	regGen("C10", genC10)
 }
